@@ -27,6 +27,12 @@ CHECKS = {
  "C11": ("validation coverage: dominating equality fact on every accepting path of ValidateBasic or in the handler",
          "For every handler storing a caller-supplied document under msg.Did, msg.Did == msg.Document.Id is established on every nil-returning path of the message's ValidateBasic or before the write; deactivation signs DIDDocument{Id: msg.Did}. Decided in full for messages (presence-on-every-path property).",
          "Trusts baseapp running ValidateBasic before handlers; genesis files are trusted input."),
+ "C06": ("interprocedural guard dominance with argument substitution (handler vocabulary) + sibling agreement with GetSigners + who-may-call",
+         "Every x/nft mutator call / raw pnft store write reached from a PNFT handler is dominated along the call chain by actor == owner-lookup(ids).Owner, the actor is the field GetSigners returns, the mutated resource is the one looked up, updates never re-key a denom and change its owner only in the hand-over schema, owner lookups read x/nft's stored records, x/nft mutators are used only by the pnft keeper.",
+         "Trusts x/nft keeper internals, authz, signature verification."),
+ "C12": ("reachability of token-data writers + provenance of minted literal + guard dominance (supply==0) + request-field use + regex/byte-language analysis of validators + sibling agreement of views",
+         "Only Mint writes token data (from the mint handler, with request-derived content and block time); class delete is dominated by GetTotalSupply(sameId)==0; every query request field is used; identifiers entering x/nft's delimiter-joined keys exclude the delimiter byte on every accepting path of ValidateBasic; the three token views agree field by field.",
+         "Trusts x/nft owner index and iterators; genesis identifiers are trusted input."),
 }
 
 PENDING_REASON = "check not built yet in this round (planned per DESIGN.md section 4); no claim is made until the checker rule exists"
